@@ -112,6 +112,16 @@ NULLARY += ['type[L0]', 'type[int]', 'type[Union[L0, int]]', 'type[TB]', 'tuple[
 LEAVES_EXT += ['type[L1]', 'Annotated[object, ISEQ(5), IS(gt3)]']
 NULLARY += ['GD[L0, T]', 'GD[L0, GS[L1]]', 'GD[GL[L1], GS[int]]', 'GL[GL[L0]]', 'GD[str, GD[int, L0]]', 'list[GD[L0, GL[L1]]]']
 UNARY += ['GS[{0}]']
+# further families: PEP 695 aliases, typing's deprecated aliases, enum literals, Never as an item hint, str as a sequence of str
+import enum as _enum, typing as _t
+class Color(_enum.Enum): R = 1; G = 2
+CR = Color.R
+NS.update(Color=Color, CR=CR, List=_t.List, Dict=_t.Dict, Tuple=_t.Tuple, Type=_t.Type, AnyStr=_t.AnyStr, LiteralString=_t.LiteralString, Final=_t.Final, Never=_t.Never,
+          Hashable=cabc.Hashable, SupportsInt=_t.SupportsInt, Pattern=_t.Pattern)
+exec("type AL = list[L0]\ntype AG[X] = dict[str, X]\ntype AN = tuple[AL, int]", NS)
+NULLARY += ['AL', 'list[AL]', 'AG[L0]', 'AN', 'dict[str, AG[L1]]', 'LiteralString', 'List[L0]', 'Dict[str, L0]', 'Tuple[L0, int]', 'Type[L0]', 'AnyStr', 'Literal[CR, 1]', 'Literal[CR]',
+            'Sequence[str]', 'Collection[str]', 'Optional[list[L0]]', 'tuple[L0, ...] | list[L1]', 'Hashable', 'SupportsInt', 'Pattern[str]',
+            'list[L0] | None', 'Mapping[str, Optional[Sequence[L0]]]', 'tuple[L0, ...] | None']
 # PEP 646 fixed-length unpacking inside tuple hints (first / middle / last / nested): still fixed-length tuples
 NS['Unpack'] = __import__('typing').Unpack
 NULLARY += ['tuple[*tuple[L0, L1], int]', 'tuple[int, *tuple[L0, L1]]', 'tuple[L0, *tuple[L1], int]', 'tuple[Unpack[tuple[L0, L1]], int]', 'tuple[*tuple[L0, *tuple[L1, int]], str]',
